@@ -841,12 +841,17 @@ def check_identity_fault_twins(ctx, lane):
         views = {}
         for g in st.result.frame_ground_truth.objects:
             views[g.uuid] = views.get(g.uuid, 0) + 1
+        ids = {}
+        for r in st.result.object_results:
+            ids[r.estimated_object.uuid] = ids.get(r.estimated_object.uuid, 0) + 1
         for r in st.result.object_results:
             g = r.ground_truth_object
             if g is None:
                 continue
             if views.get(g.uuid, 0) > 1:
                 continue   # a target annotated in two cameras at once has two pairings per frame: the claim is per pairing
+            if r.estimated_object.uuid is None or ids[r.estimated_object.uuid] > 1:
+                continue   # "correctly tracked" presupposes an identity of its own
             info = ctx.est_registry.get(id(r.estimated_object))
             lab = V.label_of(r.estimated_object)
             if info is None or info["spec"]["src"] < 0 or lab not in labels or lab != V.label_of(g):
